@@ -74,7 +74,7 @@ def run(check: Check):
   from fjsa.props import c02, c04
   check.rule('R-SIZE', 'local step count of the client batch stream (shared with C04)')
   check.rule('R-MASK', 'parallel backend: padded steps / clients never change a real client\'s state or output (shared with C02)')
-  c04._num_steps(check)
+  c04.run(check, with_flags=False)
   c02._pmap(check)
   # zero guard of the normaliser (R-DIV) in tree_util
   da = DivAnalysis(repo)
